@@ -46,13 +46,15 @@ func c13ExhaustiveCount(tier string) int {
 func init() {
 	register(&Prop{
 		ID: "C13", Level: "exploration",
-		Rule:        "exhaustive part: for every key-set size n <= 5 (quick) / 6 (thorough), EVERY insertion order x EVERY priority ranking (n!*n! histories; distinct priorities) is built step by step; then every single key is deleted and re-inserted, then the store is flushed, evicted, re-opened and mutated once more. After every step the verif-hook walk (cached nodes) completed with the independent decoder (persisted subtrees) recomputes every node's numNodes/numBytes bottom-up, checks strict in-order key order against the model, heap order and the depth of every item against the unique treap (Cartesian tree) of the current keys and priorities; the same shape oracle is evaluated through the public API only ((key,priority,depth) sequence of VisitItemsAscendEx), and every flushed image is validated node by node by the decoder. Random part: collections up to 200 items with deletes, overwrites at higher/equal/lower priority (heap and shape clauses are switched off from the first lowering overwrite until the collection is empty, as the statement allows), tied priorities (shape clause off, heap clause on), custom comparators, value-length callbacks (neutral ones and a codec whose on-disk value length is twice len(Val), so that byte totals are defined by ItemValLength on every path), and flushes that fail on one write and are retried (the persisted tree must still be exact). Non-trivial = n >= 2 (exhaustive) or a history with overwrite and delete (random); distinct = distinct (n, order, ranking) or op-trace hash.",
+		Rule:        "concurrent-load cases: 3-4 readers (lookups, visits) load a flushed and re-opened tree at the same time, with or without a mutator, under the deterministic scheduler (switches before AND after every file call); at quiescence every cached node that has a file location must equal the 52-byte record stored there (item, child locations, both aggregates) and the concurrent-history checks must hold. merge-copy cases: CopyTo into a file that already holds a store with the same collection names and interleaving keys; the result must be a search tree and heap with exact aggregates (hook walk + shape check of the returned store). exhaustive part: for every key-set size n <= 5 (quick) / 6 (thorough), EVERY insertion order x EVERY priority ranking (n!*n! histories; distinct priorities) is built step by step; then every single key is deleted and re-inserted, then the store is flushed, evicted, re-opened and mutated once more. After every step the verif-hook walk (cached nodes) completed with the independent decoder (persisted subtrees) recomputes every node's numNodes/numBytes bottom-up, checks strict in-order key order against the model, heap order and the depth of every item against the unique treap (Cartesian tree) of the current keys and priorities; the same shape oracle is evaluated through the public API only ((key,priority,depth) sequence of VisitItemsAscendEx), and every flushed image is validated node by node by the decoder. Random part: collections up to 200 items with deletes, overwrites at higher/equal/lower priority (heap and shape clauses are switched off from the first lowering overwrite until the collection is empty, as the statement allows), tied priorities (shape clause off, heap clause on), custom comparators, value-length callbacks (neutral ones and a codec whose on-disk value length is twice len(Val), so that byte totals are defined by ItemValLength on every path), and flushes that fail on one write and are retried (the persisted tree must still be exact). Non-trivial = n >= 2 (exhaustive) or a history with overwrite and delete (random); distinct = distinct (n, order, ranking) or op-trace hash.",
 		Assumptions: []string{"comparators are total orders", "walks run at quiescent points only (between API calls)"},
 		Exhaustive:  func(string) bool { return false },
-		NumCases:    func(tier string) int { return c13ExhaustiveCount(tier) + pick(tier, 500, 20000) },
-		Run:         runC13,
+		NumCases: func(tier string) int {
+			return c13ExhaustiveCount(tier) + pick(tier, 500, 20000) + pick(tier, 160, 4000) + pick(tier, 60, 1500)
+		},
+		Run: runC13,
 		Floor: func(tier string, st map[string]int64) string {
-			for _, k := range []string{"c13.exhaustive-cases", "walks", "shape.checks", "shape.canonical-depths-checked", "decodes", "shape.heap-off-checks", "shape.tied-priority-checks", "op.Set.overwrite-lower", "c13.length-changing-codec-cases", "failed-flushes"} {
+			for _, k := range []string{"c13.exhaustive-cases", "walks", "shape.checks", "shape.canonical-depths-checked", "decodes", "shape.heap-off-checks", "shape.tied-priority-checks", "op.Set.overwrite-lower", "c13.length-changing-codec-cases", "failed-flushes", "c13.concurrent-load-cases", "c13.concurrent-load-nodes-compared", "c13.merge-copy-cases", "op.CopyTo.into-existing-store"} {
 				if st[k] == 0 {
 					return "no " + k + " observed"
 				}
@@ -64,6 +66,15 @@ func init() {
 
 func runC13(ctx *Ctx, idx int) Result {
 	ex := c13ExhaustiveCount(ctx.Tier)
+	if idx >= ex+pick(ctx.Tier, 500, 20000) {
+		seed := CaseSeed(ctx.Seed, "C13", idx)
+		r := gen.New(seed)
+		SeedGlobalRand(seed)
+		if idx >= ex+pick(ctx.Tier, 500, 20000)+pick(ctx.Tier, 160, 4000) {
+			return runC13MergeCopy(ctx, idx, r)
+		}
+		return runC13Concurrent(ctx, idx, r)
+	}
 	if idx >= ex {
 		return runC13Random(ctx, idx)
 	}
